@@ -16,8 +16,13 @@ SPEC = dict(
                 "partition_independent. Tie: ~350 compiled pairs (original, perturbed by 1-3 random stage insertions) of "
                 "dfir_syntax! programs covering the operator catalogue, run on the same generated inputs; the original is diffed "
                 "against the Lean interpreter of the program, the variant against the interpreter of the *perturbed* program "
-                "(`perturbNodes`, the function the theorem is about); oracle on the real code: original == variant per tick and "
-                "sink."),
+                "(`perturbNodes`, the function the theorem is about); for every original the partition the real compiler chose "
+                "(subgraph_toposort of build_dfir_code, mapped to the model's nodes) is checked by the driver to be a well-formed "
+                "schedule (the hypothesis of sched_refines_denot, decided by wfFromB) and the ticks are then evaluated subgraph by "
+                "subgraph; oracle on the real code: original == variant per tick and sink, and compile-or-not agreement of every "
+                "pair through the real dfir_lang pipeline (parse, flat graph, partition, code generation) plus hand-written "
+                "same-tick-cycle pairs that must be rejected alike. Refuted clause: fused_shortcircuit_shape_dependent_refuted "
+                "(F221) with the fused code path transcribed as model operators and reproduced on the real code."),
     level_note=("Not modelled: the item-at-a-time fusion inside a subgraph (which operators are pull adaptors, which drain eagerly, "
                 "pivot, push chain) — covered by the differential execution only. Known finding F22: operators that stop pulling "
                 "early (chain_first_n, cross_singleton, defer_signal's signal port) leave lazily evaluated stateful operators "
